@@ -394,6 +394,58 @@ pub fn same_name_projects() -> Vec<Project> {
     ]
 }
 
+/// what a package means must survive being written to and read back from its artifact files:
+/// float literals with up to 17 significant digits, and function bodies of growing length (one
+/// nesting level of the serialised IR per statement)
+pub fn artifact_fidelity_projects() -> Vec<Project> {
+    let mut out = Vec::new();
+    let floats = [
+        "0.9999999999999999", "0.1", "0.30000000000000004", "1.0000000000000002", "123456789.12345678", "2.2250738585072014", "9007199254740993.0", "0.000000000000000000001234567890123456",
+        "1.7976931348623157", "4.35", "0.7000000000000001", "100.00000000000001",
+    ];
+    let mut lib = String::from("package Lib\n\n");
+    let mut main = String::from("package Main\nimport Lib\n\nfn local() -> float64 { 0.9999999999999999 }\n\nfn main() {\n    string_println(float64_to_string(local()));\n");
+    for (i, f) in floats.iter().enumerate() {
+        lib.push_str(&format!("fn f{}() -> float64 {{ {} }}\n", i, f));
+        main.push_str(&format!("    string_println(float64_to_string(Lib::f{}()));\n", i));
+    }
+    lib.push_str("fn g32() -> float32 { 16777217.000000001f32 }\n");
+    main.push_str("    string_println(float32_to_string(Lib::g32()))\n}\n");
+    out.push(Project { name: "artifact-fidelity-float-literals".into(), files: vec![("main.gom".into(), main), ("Lib/lib.gom".into(), lib)], expected_stdout: None });
+    for n in [20usize, 40, 60, 80, 160, 320] {
+        let mut lib = String::from("package Lib\n\nfn chain(a: int32) -> int32 {\n    let v0 = a;\n");
+        for i in 1..=n {
+            lib.push_str(&format!("    let v{} = v{} + 1;\n", i, i - 1));
+        }
+        lib.push_str(&format!("    v{}\n}}\n", n));
+        out.push(Project {
+            name: format!("artifact-fidelity-body-of-{}-statements", n),
+            files: vec![("main.gom".into(), "package Main\nimport Lib\n\nfn main() { string_println(int32_to_string(Lib::chain(1))) }\n".into()), ("Lib/lib.gom".into(), lib)],
+            expected_stdout: Some(format!("{}\n", n + 1)),
+        });
+    }
+    for n in [40usize, 160] {
+        // nesting by expression depth instead of statement count
+        let mut e = String::from("a");
+        for _ in 0..n {
+            e = format!("({} + 1)", e);
+        }
+        out.push(Project {
+            name: format!("artifact-fidelity-expression-of-depth-{}", n),
+            files: vec![("main.gom".into(), "package Main\nimport Lib\n\nfn main() { string_println(int32_to_string(Lib::deep(1))) }\n".into()), ("Lib/lib.gom".into(), format!("package Lib\n\nfn deep(a: int32) -> int32 {{ {} }}\n", e))],
+            expected_stdout: Some(format!("{}\n", n + 1)),
+        });
+    }
+    // the builtin package named in an import
+    out.push(Project { name: "import-of-builtin".into(), files: vec![("main.gom".into(), "package Main\nimport Builtin\n\nfn main() { string_println(\"x\") }\n".into())], expected_stdout: None });
+    out.push(Project {
+        name: "import-of-builtin-in-a-library".into(),
+        files: vec![("main.gom".into(), "package Main\nimport Lib\n\nfn main() { string_println(Lib::s()) }\n".into()), ("Lib/lib.gom".into(), "package Lib\nimport Builtin\n\nfn s() -> string { \"x\" }\n".into())],
+        expected_stdout: None,
+    });
+    out
+}
+
 /// ill-typed variants: one type error in a leaf / middle / root package of the chain project
 pub fn erroneous_projects() -> Vec<Project> {
     let base = &generated_projects()[0];
